@@ -1,6 +1,6 @@
 (* C04 - readers and loose writers are never disturbed by a concurrent packer.  Statements only. *)
 From Coq Require Import List ZArith NArith.
-From DOS Require Import Generated Base Store StoreProofs StoreLemmas Mono MonoStep.
+From DOS Require Import Generated Base Store StoreProofs StoreLemmas Mono MonoStep Programs PackProofs AddPackProofs ImportProofs MonoProgs.
 Import ListNotations.
 
 Section C04.
@@ -32,6 +32,34 @@ Proof. exact (reader_finds H inflate H_inj). Qed.
 (* (4) the boolean side-condition checker run on implementation traces is sound *)
 Theorem C04_trace_checker_sound : forall tr s, all_ok_b H inflate s tr = true -> all_ok H inflate s tr.
 Proof. exact (all_ok_b_sound H inflate). Qed.
+(* (1') program level: for ALL inputs every step of the loose writer (add_object / add_streamed_object), of the packer (pack_all_loose
+   one pack, with or without fsync and per-pack clean; clean_storage) and of a same-hash import / plain direct-to-pack passes those side
+   conditions - the hypothesis of (2) is discharged for the programs themselves, not only for observed traces *)
+Theorem C04_writer_is_monotone : forall w l n chunks, Inv H inflate w -> all_ok H inflate (w, l) (p_add_loose H w n chunks).
+Proof. exact (add_loose_all_ok H inflate H_inj). Qed.
+Theorem C04_packer_is_monotone : forall w l id objs fs clean,
+  Inv H inflate w -> pending l = [] ->
+  Forall (obj_ok inflate w) objs -> NoDup (map okey objs) -> (forall o, In o objs -> ~ In (okey o) (map rkey (db w))) ->
+  all_ok H inflate (w, l) (p_pack_one w id objs fs clean).
+Proof. exact (pack_one_all_ok H inflate H_inj). Qed.
+Theorem C04_cleaner_is_monotone : forall w l vacuum order,
+  Inv H inflate w -> pending l = [] -> all_ok H inflate (w, l) (p_clean w vacuum order).
+Proof. exact (clean_all_ok H inflate). Qed.
+Theorem C04_plain_import_is_monotone : forall w l bs twice fs,
+  Inv H inflate w -> pending l = [] -> Forall (fun b => Forall (aobj_ok H inflate) (snd b)) bs ->
+  all_ok H inflate (w, l) (p_import w false twice fs bs).
+Proof. exact (import_all_ok H inflate H_inj). Qed.
+
+(* (3') a reader against ONE running actor: the reader's five observations (index snapshot, bytes of a snapshot row, loose folder,
+   refreshed snapshot, bytes of a refreshed row) fall after ANY p1 <= p1', p2 <= p3 <= p4 primitives of the actor's run: every object
+   stored before the actor started is returned with exactly its bytes *)
+Theorem C04_reader_during_a_monotone_run : forall s tr p1 p1' p2 p3 p4 k c,
+  all_ok H inflate s tr -> (forall m, Inv H inflate (fst (run_events s (firstn m tr)))) ->
+  p1 <= p1' -> p2 <= p3 -> p3 <= p4 ->
+  stored inflate (fst s) k = Some c ->
+  lookup inflate (fst (run_events s (firstn p1 tr))) (fst (run_events s (firstn p1' tr))) (fst (run_events s (firstn p2 tr)))
+                 (fst (run_events s (firstn p3 tr))) (fst (run_events s (firstn p4 tr))) k = Some c.
+Proof. intros s tr p1 p1' p2 p3 p4 k c A AI. exact (reader_during_run H inflate H_inj s tr p1 p1' p2 p3 p4 k c A AI). Qed.
 End C04.
 
 (* (5) re-loosened cache: one packer run removes a given loose name at most twice (per-pack clean, then clean_storage); the
@@ -43,3 +71,8 @@ Print Assumptions C04_any_interleaving_is_monotone.
 Print Assumptions C04_reader_finds_every_acknowledged_object.
 Print Assumptions C04_trace_checker_sound.
 Print Assumptions C04_retries_suffice.
+Print Assumptions C04_writer_is_monotone.
+Print Assumptions C04_packer_is_monotone.
+Print Assumptions C04_cleaner_is_monotone.
+Print Assumptions C04_plain_import_is_monotone.
+Print Assumptions C04_reader_during_a_monotone_run.
